@@ -213,6 +213,10 @@ func (s *Solver) Check(extra ...*Term) string {
 	res := s.readLine()
 	s.Queries++
 	s.Time += time.Since(t0)
+	if time.Since(t0) > 5*time.Second && os.Getenv("VERIF_DEBUG") != "" {
+		os.WriteFile(fmt.Sprintf("/tmp/gosym-slow-%d-%s.smt2", s.Queries, res), []byte(s.ScriptSnapshot()), 0644)
+		fmt.Fprintln(os.Stderr, "SLOW QUERY", time.Since(t0), res)
+	}
 	if res != "sat" && res != "unsat" {
 		if os.Getenv("VERIF_DEBUG") != "" {
 			fmt.Fprintln(os.Stderr, "SOLVER SAID:", res)
